@@ -278,3 +278,19 @@ def paths(cfg: CFG, start: Node, ev: RoleEval, env: dict[str, Any], stop: set[No
             n = nxt[0]
         out.append(path)
     return out
+
+
+def specialise(t: Any, ev: RoleEval, env: dict[str, Any]) -> Any:
+    """Partially evaluate a term under a role assignment: conditional expressions whose condition is decided are replaced by
+    the branch taken (so `a if c else b` and the if/else statement form give the same term on every abstract path)."""
+    if isinstance(t, tuple) and t and isinstance(t[0], str):
+        if t[0] == "ifexp":
+            v = ev.eval_term(t[1], env)
+            if v is True:
+                return specialise(t[2], ev, env)
+            if v is False:
+                return specialise(t[3], ev, env)
+        return tuple(specialise(x, ev, env) for x in t)
+    if isinstance(t, tuple):
+        return tuple(specialise(x, ev, env) for x in t)
+    return t
